@@ -62,7 +62,9 @@ def colliding_strings(k=3):
 
 
 def name_triples(tier):
-    out = {"collide": [0, 8, 16], "strcollide": colliding_strings(3)}
+    # "samehash": two different ints with exactly the same hash (CPython hashes ints modulo 2**61 - 1), so also their
+    # frozensets / tuples hash alike: equality must compare values, not fingerprints
+    out = {"collide": [0, 8, 16], "strcollide": colliding_strings(3), "samehash": [3, 3 + (2 ** 61 - 1), 7]}
     if tier != "quick":
         out["canon"] = [0, 1, 2]
         out["intstr"] = ["0", "8", "16"]
